@@ -117,13 +117,23 @@ CHECKS.update({
             "6 C20", "Trusted: kernel; sample_contract / shuffle_contract are explicit hypotheses (CPython random); the order of the unlimited "
             "list (set/dict iteration, SQLite row order) is not modelled.",
             "Coq proof with the random choice as a universally quantified oracle + object-level differential execution of limit_results"),
+    'C15': ("proof", "Coq theorems: no write request of the model, in ANY state and at any microversion, is answered with a status >= 500 "
+            "(every object-layer failure of set_allocations / set_inventory / reshape is one of the exceptions the handlers convert), the same "
+            "behind the front pipeline (authentication, routing, decorators, policy) computed from the regenerated route tables, a front "
+            "rejection leaves the state alone, and a rejected request (>= 400) leaves the core state unchanged. PARTIAL: body/query parsing, "
+            "JSON-schema validation, the JSON error document and the read routes are not modelled; they are covered by the mutation stream "
+            "(grammar-based mutation of valid requests to every route in plain / exotic-topology / random-history states: no escaped "
+            "exception, no 5xx, errors-guideline document for every 4xx, no core-table change on 400/404/405/406/415), which is testing, not "
+            "proof. Tie: differential histories model vs application with the C15 oracle on every step.",
+            "6 C15", SEQ_NOTE + " Stored state = nine core tables (project/user/consumer-type name rows excluded, as for C04).",
+            "Coq proof (case analysis over every handler and object-layer exception; pipeline over regenerated tables) + correspondence histories; "
+            "mutation stream as search for failing inputs"),
 })
 PENDING = {
     'C02': 'check not built yet (allocation-candidate model in progress)',
     'C03': 'check not built yet (allocation-candidate model in progress)',
     'C11': 'check not built yet',
     'C13': 'check not built yet',
-    'C15': 'check not built yet',
 }
 
 
